@@ -13,7 +13,10 @@ Definition fresh : pp := {| pending := false; ended := false; alive := true |}.
 Inductive pcmd :=
 | CSend        (* send_command('next_update' | 'calculate_timestep' | ...) *)
 | CGet         (* get_command_result() *)
-| CEnd.        (* ParallelProcess.end() (also run by __del__ and when its node is deleted) *)
+| CEnd         (* ParallelProcess.end() (also run by __del__ and when its node is deleted) *)
+| CQuery       (* the engine reads process.schema (Store.build_topology_views) or asks is_step() (re-registration)
+                  while the structure of the hierarchy changes *)
+| CMoved.      (* the node of the process is detached and attached elsewhere by Store.move *)
 
 Inductive perr := StillPending | NothingPending | Ended.
 
@@ -27,7 +30,26 @@ Definition pstep (s : pp) (c : pcmd) : pp + perr :=
   | CEnd => if ended s then inl s                        (* only end once *)
             else if pending s then inr StillPending      (* send_command('end') runs the pre-check *)
             else inl {| pending := false; ended := true; alive := false |}
+  | CQuery => inl s                                      (* answered on the parent side: no command *)
+  | CMoved => inl s                                      (* only detached: the worker is left alone *)
   end.
+
+(* the pinned code: schema / is_step were commands to the worker (run_command = send + get), and Store.move
+   removed the source with _delete_path, which ends every parallel process below it *)
+Definition pstep_pinned (s : pp) (c : pcmd) : pp + perr :=
+  match c with
+  | CQuery => if pending s then inr StillPending else if ended s then inr Ended else inl s
+  | CMoved => pstep s CEnd
+  | _ => pstep s c
+  end.
+
+Fixpoint prun_pinned (s : pp) (cs : list pcmd) : pp + perr :=
+  match cs with
+  | [] => inl s
+  | c :: r => match pstep_pinned s c with inl s' => prun_pinned s' r | inr e => inr e end
+  end.
+
+Definition quiet (c : pcmd) : bool := match c with CQuery | CMoved => true | _ => false end.
 
 Fixpoint prun (s : pp) (cs : list pcmd) : pp + perr :=
   match cs with
